@@ -23,7 +23,9 @@ CONSTANTS Mags,          \* magazines in use, e.g. {1, 2}
           Rows,          \* row numbers used
           Cids,          \* content ids
           Flofs,         \* link set ids (0 = none sent)
-          MaxPk          \* packets per behaviour
+          MaxPk,         \* packets per behaviour
+          FaultKinds,    \* C03: subset of {"hpage", "hctrl", "rpar", "mrag"}; {} = error-free transmission
+          MaxFaults
 
 None == [pg |-> 0]
 
@@ -33,8 +35,9 @@ VARIABLES mode,        \* "serial" | "parallel"
           cache,       \* set of stored pages [pg, sub, rows, flof]
           latest,      \* per page number: subpage stored last
           term,        \* pages terminated by the last packet: what a fetch must return now
+          nfault,      \* damaged packets so far
           npk, lastAct
-vars == <<mode, open, lastm, cache, latest, term, npk, lastAct>>
+vars == <<mode, open, lastm, cache, latest, term, nfault, npk, lastAct>>
 
 PgnoOf(p) == p[1]
 SubsOf(p) == p[2]
@@ -43,7 +46,7 @@ Blank == [r \in Rows |-> 0]
 
 Init == /\ mode \in {"serial", "parallel"} /\ open = [m \in Mags |-> None] /\ lastm = 0
         /\ cache = {} /\ latest = [p \in {PgnoOf(x) : x \in Pages} |-> 0] /\ term = <<>>
-        /\ npk = 0 /\ lastAct = [a |-> "init"]
+        /\ npk = 0 /\ nfault = 0 /\ lastAct = [a |-> "init"]
 
 Stored(pg, sub) == {c \in cache : c.pg = pg /\ c.sub = sub}
 
@@ -70,29 +73,59 @@ Header(p, sub, erase, nat) ==
   /\ open[m] = None \/ open[m].pg # pg
   /\ Terminate(m)
   /\ open' = [open EXCEPT ![m] = [pg |-> pg, sub |-> sub, erase |-> erase, nat |-> nat, rows |-> Blank, flof |-> 0]]
-  /\ lastm' = m /\ UNCHANGED mode
+  /\ lastm' = m /\ UNCHANGED <<mode, nfault>>
   /\ npk' = npk + 1 /\ lastAct' = [a |-> "Header", pg |-> pg, sub |-> sub, erase |-> erase, nat |-> nat]
 
 \* time-filling header of magazine m: terminates, opens nothing
 Filler(m) ==
   /\ open[m] # None
   /\ Terminate(m)
-  /\ open' = [open EXCEPT ![m] = None] /\ lastm' = m /\ UNCHANGED mode
+  /\ open' = [open EXCEPT ![m] = None] /\ lastm' = m /\ UNCHANGED <<mode, nfault>>
   /\ npk' = npk + 1 /\ lastAct' = [a |-> "Filler", m |-> m]
 
 Row(m, r, c) ==
-  /\ open[m] # None /\ (mode = "serial" => lastm = m)
-  /\ open' = [open EXCEPT ![m].rows[r] = c]
-  /\ term' = <<>> /\ UNCHANGED <<mode, lastm, cache, latest>>
+  /\ (mode = "serial" => lastm = m)
+  /\ open[m] # None \/ FaultKinds # {}          \* after a damaged header the rows of the lost page still arrive: ignored
+  /\ open' = IF open[m] # None THEN [open EXCEPT ![m].rows[r] = c] ELSE open
+  /\ term' = <<>> /\ UNCHANGED <<mode, lastm, cache, latest, nfault>>
   /\ npk' = npk + 1 /\ lastAct' = [a |-> "Row", m |-> m, r |-> r, c |-> c]
 
 Flof(m, f) ==
   /\ open[m] # None /\ (mode = "serial" => lastm = m) /\ f # 0
   /\ open' = [open EXCEPT ![m].flof = f]
-  /\ term' = <<>> /\ UNCHANGED <<mode, lastm, cache, latest>>
+  /\ term' = <<>> /\ UNCHANGED <<mode, lastm, cache, latest, nfault>>
   /\ npk' = npk + 1 /\ lastAct' = [a |-> "Flof", m |-> m, f |-> f]
 
+
+-----------------------------------------------------------------------------
+(* C03: damaged packets.  A single bit error in a Hamming protected byte is corrected, i.e. it is
+   the error-free behaviour above (the check flips every bit of every protected byte of generated
+   transmissions).  Two bit errors in one byte are detected: *)
+\* ... in the page number of a header: the pages in progress of ALL magazines are abandoned
+HeaderPageBad(p) ==
+  LET m == MagOf(PgnoOf(p)) IN
+  /\ "hpage" \in FaultKinds /\ nfault < MaxFaults
+  /\ open' = [x \in Mags |-> None] /\ term' = <<>> /\ lastm' = m
+  /\ UNCHANGED <<mode, cache, latest>> /\ nfault' = nfault + 1
+  /\ npk' = npk + 1 /\ lastAct' = [a |-> "HeaderPageBad", pg |-> PgnoOf(p)]
+\* ... in the subcode or control bits of a header: the header still terminates the open page of its magazine,
+\* the new page is not received
+HeaderCtrlBad(p) ==
+  LET pg == PgnoOf(p)  m == MagOf(pg) IN
+  /\ "hctrl" \in FaultKinds /\ nfault < MaxFaults
+  /\ open[m] = None \/ open[m].pg # pg
+  /\ Terminate(m)
+  /\ open' = [open EXCEPT ![m] = None] /\ lastm' = m /\ UNCHANGED mode /\ nfault' = nfault + 1
+  /\ npk' = npk + 1 /\ lastAct' = [a |-> "HeaderCtrlBad", pg |-> pg]
+\* a row with a parity error, or any non-header packet with an uncorrectable address: changes nothing
+RowBad(kind, m, r, c) ==
+  /\ kind \in FaultKinds /\ nfault < MaxFaults /\ (mode = "serial" => lastm = m)
+  /\ term' = <<>> /\ UNCHANGED <<mode, open, lastm, cache, latest>> /\ nfault' = nfault + 1
+  /\ npk' = npk + 1 /\ lastAct' = [a |-> "RowBad", kind |-> kind, m |-> m, r |-> r, c |-> c]
+
 Next == \/ \E p \in Pages, s \in 0..2, e \in BOOLEAN, n \in {0, 1} : Header(p, s, e, n)
+        \/ \E p \in Pages : HeaderPageBad(p) \/ HeaderCtrlBad(p)
+        \/ \E k \in {"rpar", "mrag"}, m \in Mags, r \in Rows, c \in Cids : RowBad(k, m, r, c)
         \/ \E m \in Mags : Filler(m)
         \/ \E m \in Mags, r \in Rows, c \in Cids : Row(m, r, c)
         \/ \E m \in Mags, f \in Flofs : Flof(m, f)
@@ -103,6 +136,8 @@ Bounded == npk < MaxPk
 \* sanity of the reference itself
 OneVersion == \A c, d \in cache : (c.pg = d.pg /\ c.sub = d.sub) => c = d
 LatestStored == \A p \in DOMAIN latest : latest[p] # 0 \/ Stored(p, 0) # {} \/ \A c \in cache : c.pg # p
+\* C03: only transmitted page / subpage numbers are ever stored
+OnlyTransmitted == \A c \in cache : \E p \in Pages : c.pg = PgnoOf(p) /\ c.sub \in SubsOf(p)
 \* rows not retransmitted keep their content unless the erase flag was set (action property)
 KeepsRows == [][\A i \in 1..Len(term') : LET v == term'[i]  o == open[MagOf(v.pg)] IN
                   \A r \in Rows : (o.rows[r] = 0 /\ ~o.erase /\ Stored(v.pg, v.sub) # {}) =>
